@@ -1716,6 +1716,17 @@ _patch_case('M', 'C07', 'heldout-m14', 'G6-m14.diff', 'C07.2')
 _patch_case('M', 'C07', 'heldout-m15', 'G6-m15.diff', 'C07.2')
 _patch_case('M', 'C07', 'heldout-m18', 'G6-m18.diff', 'C07.4')
 _patch_case('M', 'C07', 'heldout-m19', 'G6-m19.diff', 'C07.2')
+# --- C07.7 copy fidelity (seeded C07-w2mut2 / w2mut3 families) and further precondition mutants
+M('C07', 'copy-userattribute-through-signature-container', PK, "class UserAttribute(Packet):", "class UserAttribute(Packet):\n    def __copy__(self):\n        ua = UserAttribute()\n        ua.header = copy.copy(self.header)\n        ua.subpackets = copy.copy(self.subpackets)\n        return ua\n", 'C07.7')
+M('C07', 'copy-subpackets-reencoded', FL, "        sp = SubPackets()\n        sp._hashed_sp = self._hashed_sp.copy()\n        sp._unhashed_sp = self._unhashed_sp.copy()\n", "        sp = self.__class__()\n        for (name, _), val in self._hashed_sp.items():\n            sp['h_' + name] = val\n        for (name, _), val in self._unhashed_sp.items():\n            sp[name] = val\n", 'C07.7')
+M('C07', 'copy-keypacket-as-public-class', PK, "    def __copy__(self):\n        pk = self.__class__()\n        pk.header = copy.copy(self.header)\n        pk.created = self.created", "    def __copy__(self):\n        pk = PubKeyV4()\n        pk.header = copy.copy(self.header)\n        pk.created = self.created", 'C07.7')
+M('C07', 'copy-signature-drops-subpackets', PK, "        spkt.subpackets = copy.copy(self.subpackets)\n", "", 'C07.7')
+T('C07', 'twin-copy-subpackets-own-class', FL, "        sp = SubPackets()\n        sp._hashed_sp = self._hashed_sp.copy()", "        sp = self.__class__()\n        sp._hashed_sp = self._hashed_sp.copy()")
+T('C07', 'twin-copy-userattribute-own-class', PK, "class UserAttribute(Packet):", "class UserAttribute(Packet):\n    def __copy__(self):\n        ua = self.__class__()\n        ua.header = copy.copy(self.header)\n        ua.subpackets = copy.copy(self.subpackets)\n        return ua\n", more=[(FL, "        sp = SubPackets()\n        sp._hashed_sp = self._hashed_sp.copy()", "        sp = type(self)()\n        sp._hashed_sp = self._hashed_sp.copy()")])
+M('C07', 'attrs-enforced-only-when-true', DE, "            if getattr(key, attr) != expected:", "            if expected and getattr(key, attr) != expected:", 'C07.5')
+M('C07', 'attrs-truthiness-compared', DE, "            if getattr(key, attr) != expected:", "            if expected and not getattr(key, attr):", 'C07.5')
+M('C07', 'call-check-only-with-identity', DE, "                self.check_attributes(key)\n", "                if kwargs.get('user') is not None:\n                    self.check_attributes(key)\n", 'C07.5')
+M('C07', 'call-check-only-when-subkey-selected', DE, "                self.check_attributes(key)\n", "                if _key is not key:\n                    self.check_attributes(key)\n", 'C07.5')
 # =============================================================================================== C16
 M('C16', 'sign-drops-unlocked', PGP, "    @KeyAction(KeyFlags.Sign, is_unlocked=True, is_public=False)", "    @KeyAction(KeyFlags.Sign, is_public=False)", 'C16.1')
 M('C16', 'encrypt-private', PGP, "    @KeyAction(KeyFlags.EncryptCommunications, KeyFlags.EncryptStorage, is_public=True)", "    @KeyAction(KeyFlags.EncryptCommunications, KeyFlags.EncryptStorage, is_public=False)", 'C16.1')
@@ -1906,6 +1917,11 @@ M('C16', 'encrypters-loop-unguarded', PGP, "        return set(m.encrypter for m
 T('C16', 'twin-encrypters-loop-guarded', PGP, "        return set(m.encrypter for m in self._sessionkeys if isinstance(m, PKESessionKey))", "        keyids = set()\n        for m in self._sessionkeys:\n            if not isinstance(m, PKESessionKey):\n                continue\n            keyids.add(m.encrypter)\n        return keyids")
 T('C16', 'twin-decrypt-addressed-first', PGP, "        if self.fingerprint.keyid not in message.encrypters:\n            sks = set(self.subkeys)\n            mis = set(message.encrypters)\n            if sks & mis:\n                skid = list(sks & mis)[0]\n                return self.subkeys[skid].decrypt(message)\n\n            raise PGPError(\"Cannot decrypt the provided message with this key\")\n\n" + _C16_SEL + "\n        alg, key = pkesk.decrypt_sk(self._key)\n\n        # now that we have the symmetric cipher used and the key, we can decrypt the actual message\n        decmsg = PGPMessage()\n        decmsg.parse(message.message.decrypt(key, alg))\n\n        return decmsg",
   "        keyid = self.fingerprint.keyid\n        if keyid in message.encrypters:\n            pkesk = next(pk for pk in message._sessionkeys if isinstance(pk, PKESessionKey)\n                         and pk.pkalg == self.key_algorithm and pk.encrypter == keyid)\n            alg, key = pkesk.decrypt_sk(self._key)\n            decmsg = PGPMessage()\n            decmsg.parse(message.message.decrypt(key, alg))\n            return decmsg\n\n        addressed = set(self.subkeys) & set(message.encrypters)\n        if addressed:\n            return self.subkeys[list(addressed)[0]].decrypt(message)\n\n        raise PGPError(\"Cannot decrypt the provided message with this key\")")
+M('C16', 'call-refusals-only-for-flagged-actions', DE, "            if len(key._uids) == 0 and key.is_primary and action is not key.certify.__wrapped__:", "            if self.flags and len(key._uids) == 0 and key.is_primary and action is not key.certify.__wrapped__:", 'C16.2')
+M('C16', 'call-no-key-check-after-usage', DE, "            if key._key is None:\n                raise PGPError(\"No key!\")\n", "", 'C16.2', more=[(DE, "                self.check_attributes(key)\n\n", "                self.check_attributes(key)\n                if _key._key is None:\n                    raise PGPError(\"No key!\")\n\n")])
+M('C16', 'usage-scan-stops-at-first-subkey', DE, "                if self.flags & set(_key._get_key_flags(user)):\n                    break\n", "                if self.flags & set(_key._get_key_flags(user)) or _key is not key:\n                    break\n", 'C16.3')
+M('C16', 'usage-refusal-only-for-primary', DE, "                if key._require_usage_flags:\n                    raise PGPError(warning)", "                if key._require_usage_flags and key.is_primary:\n                    raise PGPError(warning)", 'C16.3')
+M('C16', 'unlocked-public-short-circuit-lost', PGP, "        if not self.is_protected:\n            return True\n\n        return self._key.unlocked", "        return True", 'C16.2')
 T('C16', 'twin-delegate-loop-skip', PGP, _C16_DEL, "            for skid in self.subkeys:\n                if skid not in message.encrypters:\n                    continue\n                return self.subkeys[skid].decrypt(message)\n")
 
 # =============================================================================================== C18 (additions)
